@@ -138,7 +138,7 @@ def table_key(table):
 
 def finding_key_for(query, clause):
   # D13 (repaired in the tree by eaff290): an empty list of geos answered with the classes of all geos
-  if query is not None and query['given'] and not query['sel'] and clause.startswith('Class_'):
+  if query is not None and query['given'] and not query['sel'] and clause in ('QueryAccepted',) + tuple('Class_' + k for k in SETS):
     return 'C16:empty-geos-list'
   return None
 
@@ -229,7 +229,8 @@ def run(res):
         break
     if idx % 1303 == 11 or (case['accept'] and nrows == 3 and idx % 97 == 3):
       s = {'table': table, 'defect': case['defect'], 'expect_accept': case['accept'], 'presentation': press[0],
-           'frame': build_frame(pd, table, press[0]).reset_index().to_dict(orient='list')}
+           'frame': {str(k): [repr(x) for x in v] for k, v in
+                     build_frame(pd, table, press[0]).reset_index().to_dict(orient='list').items()}}
       if queries:
         qc = queries[(idx * 7) % len(queries)]
         s['query'] = qc['query']
